@@ -135,11 +135,23 @@ class RequestManager(BaseModel):
 
         request_type = self.request_types[request_key]
 
-        if not request_type.validator(request_options, context):
-            _LOGGER.debug(f"Request {request} was denied due to insufficient permissions")
-            return RequestResponse(status="failure", data={"reason": request_type.validator.fail_message})
+        if isinstance(request_type.func, RequestManager):
+            if not request_type.validator(request_options, context):
+                _LOGGER.debug(f"Request {request} was denied due to insufficient permissions")
+                return RequestResponse(status="failure", data={"reason": request_type.validator.fail_message})
+            return request_type.func(request_options, context)
 
-        return request_type.func(request_options, context)
+        # a handler (and its permission rule) reads its parameters from the rest of the request: a list that is too short
+        # or cannot be unpacked / parsed is a malformed request - it is answered, not raised
+        try:
+            if not request_type.validator(request_options, context):
+                _LOGGER.debug(f"Request {request} was denied due to insufficient permissions")
+                return RequestResponse(status="failure", data={"reason": request_type.validator.fail_message})
+            return request_type.func(request_options, context)
+        except (IndexError, ValueError) as e:
+            msg = f"Request {request} could not be processed because its parameters are missing or malformed ({e})"
+            _LOGGER.debug(msg)
+            return RequestResponse(status="failure", data={"reason": msg})
 
     def add_request(self, name: str, request_type: RequestType) -> None:
         """
